@@ -15,6 +15,28 @@ from .engine import Inconclusive, copy_into
 from .models import one, U, B, target_ref, bytes_equal
 
 TAG = 16
+PROV = {}   # z3 array ast id -> provenance tag of derived key material
+
+
+def prov(ex, st, v):
+    try:
+        arr, _off, _ln = ex.bytes_view(st, v)
+    except Exception:
+        return 'opaque'
+    return PROV.get(arr.get_id(), 'in:' + str(arr)[:40])
+
+
+def tag_prov(arr, tag):
+    PROV[arr.get_id()] = tag
+    return arr
+
+
+def log_call(ex, p, op, cipher, nonce):
+    na, no, nl = ex.bytes_view(p.st, nonce)
+    key = cipher.why if isinstance(cipher, Opaque) else (getattr(ex.deref_all(p.st, cipher), 'why', 'cipher') if isinstance(cipher, Ref) else 'cipher')
+    ent = (op, na, no, nl, key)
+    return lambda q: q.ghost.setdefault('aead_calls', []).append(ent)
+
 
 
 def typenum(txt):
@@ -58,7 +80,7 @@ def havoc_models():
 
     @model(r' as (?:\w+::)*KeyInit>::new$')
     def _keyinit_new(ex, p, m, a, func, fr):
-        return one(Opaque('cipher'))
+        return one(Opaque('cipher[key=%s]' % prov(ex, p.st, a[0])))
 
     @model(r' as (?:\w+::)*KeyInit>::new_from_slice$')
     def _keyinit_new_from_slice(ex, p, m, a, func, fr):
@@ -85,11 +107,14 @@ def havoc_models():
         pt = _fresh_arr('pt')
         nb = b.with_(arr=pt, off=bv64(0), len=b.len - bv64(TAG))
 
+        lg = log_call(ex, p, 'open', a[0], a[1])
+
         def app_ok(q):
             ex.store(q.st, tr.base, tr.proj, nb)
             q.ghost.setdefault('opens', []).append(('ok', pt, b.len - bv64(TAG)))
+            lg(q)
         return [dict(cond=good, value=res_ok(U()), apply=app_ok),
-                dict(cond=z3.Not(good), value=res_err(Opaque('aead::Error')), apply=lambda q: q.ghost.setdefault('opens', []).append(('fail',)))]
+                dict(cond=z3.Not(good), value=res_err(Opaque('aead::Error')), apply=lambda q: (q.ghost.setdefault('opens', []).append(('fail',)), lg(q)))]
 
     @model(r' as (?:\w+::)*AeadInPlace>::decrypt_in_place_detached$')
     def _dec_detached(ex, p, m, a, func, fr):
@@ -97,11 +122,14 @@ def havoc_models():
         ok = fresh('aead_ok', z3.BoolSort())
         pt = _fresh_arr('pt')
 
+        lg = log_call(ex, p, 'open', a[0], a[1])
+
         def app(q):
             ex.bytes_fill(q.st, s, pt, bv64(0), s.len)
             q.ghost.setdefault('opens', []).append(('ok', pt, s.len))
+            lg(q)
         return [dict(cond=ok, value=res_ok(U()), apply=app),
-                dict(cond=z3.Not(ok), value=res_err(Opaque('aead::Error')), apply=lambda q: q.ghost.setdefault('opens', []).append(('fail',)))]
+                dict(cond=z3.Not(ok), value=res_err(Opaque('aead::Error')), apply=lambda q: (q.ghost.setdefault('opens', []).append(('fail',)), lg(q)))]
 
     @model(r' as (?:\w+::)*AeadInPlace>::encrypt_in_place$')
     def _enc_in_place(ex, p, m, a, func, fr):
@@ -110,14 +138,26 @@ def havoc_models():
         b = ex.load(p.st, tr.base, tr.proj)
         ct = _fresh_arr('ct')
         nb = b.with_(arr=copy_into(b.arr, b.off, ct, bv64(0), b.len + bv64(TAG)), len=b.len + bv64(TAG))
-        return [dict(value=res_ok(U()), apply=lambda q: ex.store(q.st, tr.base, tr.proj, nb))]
+        lg = log_call(ex, p, 'seal', a[0], a[1])
+        pt_snapshot = ('seal', b.arr, b.off, b.len)
+
+        def app(q):
+            ex.store(q.st, tr.base, tr.proj, nb)
+            lg(q)
+            q.ghost.setdefault('seals', []).append(pt_snapshot)
+        return [dict(value=res_ok(U()), apply=app)]
 
     @model(r' as (?:\w+::)*AeadInPlace>::encrypt_in_place_detached$')
     def _enc_detached(ex, p, m, a, func, fr):
         s = ex.as_sref(p.st, a[3])
+        lg = log_call(ex, p, 'seal', a[0], a[1])
+        sa, so, sl = ex.bytes_view(p.st, s)
+        pt_snapshot = ('seal', sa, so, sl)
 
         def app(q):
             ex.bytes_fill(q.st, s, _fresh_arr('ct'), bv64(0), s.len)
+            lg(q)
+            q.ghost.setdefault('seals', []).append(pt_snapshot)
         return [dict(value=res_ok(Arr(_fresh_arr('tag'), 'u8', TAG)), apply=app)]
 
     @model(r' as (?:\w+::)*Aead>::(encrypt|decrypt)::<.*>$')
